@@ -48,6 +48,9 @@ def run_case(case: dict[str, Any]) -> dict[str, Any]:
         kw: dict[str, Any] = {}
         if align is not None:
             kw["align_to"] = EPOCH + timedelta(seconds=align)
+            if case.get("align_tz_min"):
+                # the same instant written in another time zone
+                kw["align_to"] = kw["align_to"].astimezone(timezone(timedelta(minutes=case["align_tz_min"])))
         else:
             kw["align_to"] = None
         if case.get("fn") != "default":  # "default": the library's own resampling function (average)
